@@ -168,7 +168,7 @@ func C10(rep *ev.Reporter, tier string) {
 			for i, q1 := range seqs {
 				for j, q2 := range small {
 					emit(Case{ID: fmt.Sprintf("c10/k2/%d.%d/hi%v", i, j, salHi), Rules: []*grl.Rule{mk("r1", []string{"r2"}, q1, s1), mk("r2", []string{"r1"}, q2, nil)},
-						Worlds: []func() *ref.World{world}, WorldNames: []string{"zero"}, Opts: hx.RunOpts{MaxCycle: 8, OnHook: hook}, Reuse: true,
+						Worlds: []func() *ref.World{world}, WorldNames: []string{"zero"}, Opts: hx.RunOpts{MaxCycle: 8, OnHook: hook}, Reuse: true, Histories: true,
 						Meta: map[string]string{"r1": strings.Join(q1, ","), "r2": strings.Join(q2, ",")}})
 				}
 			}
